@@ -57,9 +57,12 @@ def run(ctx):
                       f'{v.qualname} is registered for {c.name} but never looks at its identifier field(s) {sorted(need)}',
                       fn.lineno)
     sub = ctx.repo.funcs('match', 'subn')[0]
-    walks = any(isinstance(x, ast.Call) and call_name(x) == 'walk' and x.args and norm(x.args[0]) == '_SUB_REPL_PATH_FUNCS' for x in ast.walk(sub.node))
-    dispatch = any(isinstance(x, ast.Call) and isinstance(x.func, ast.Call) and isinstance(x.func.func, ast.Attribute) and x.func.func.attr == 'get' and
-                   norm(x.func.func.value) == '_SUB_REPL_PATH_FUNCS' for x in ast.walk(sub.node))
+    from ..struct import called_helpers
+    drv = [x for g in called_helpers(ctx.repo, sub) for x in ast.walk(g.node)]       # the driver and the workers it calls
+    walks = any(isinstance(x, ast.Call) and call_name(x) == 'walk' and
+                any(norm(a) == '_SUB_REPL_PATH_FUNCS' for a in list(x.args) + [k.value for k in x.keywords]) for x in drv)
+    dispatch = any(isinstance(x, ast.Call) and isinstance(x.func, ast.Attribute) and x.func.attr == 'get' and norm(x.func.value) == '_SUB_REPL_PATH_FUNCS'
+                   for x in drv) or any(isinstance(x, ast.Subscript) and norm(x.value) == '_SUB_REPL_PATH_FUNCS' for x in drv)
     ctx.check('R18.1', walks and dispatch, 'match', 'subn', 'walk filter and dispatch use _SUB_REPL_PATH_FUNCS',
               'subn() must walk the template with the slot table as type filter and dispatch through the same table', sub.lineno)
 
